@@ -141,8 +141,20 @@ func runC05(c *Ctx) {
 			return isC && v == statusClosed
 		}
 		isSnapshotRange := func(in ssa.Instruction) bool {
-			r, ok := in.(*ssa.Range)
-			return ok && strings.HasSuffix(D(r.X), "Client.channels")
+			if r, ok := in.(*ssa.Range); ok {
+				return strings.HasSuffix(D(r.X), "Client.channels")
+			}
+			// maps.Copy(snapshot, c.channels) / maps.Clone(c.channels)
+			if call, ok := in.(*ssa.Call); ok {
+				if cal := call.Call.StaticCallee(); cal != nil && cal.Object() != nil && cal.Object().Pkg() != nil && cal.Object().Pkg().Path() == "maps" {
+					for _, a := range call.Call.Args {
+						if strings.HasSuffix(D(a), "Client.channels") {
+							return true
+						}
+					}
+				}
+			}
+			return false
 		}
 		invoke := func(name string) func(ssa.Instruction) bool {
 			return func(in ssa.Instruction) bool {
@@ -203,20 +215,28 @@ func runC05(c *Ctx) {
 	if commitFn != nil {
 		stopB := w.calleeIs("PubSubSync.StopBuffering")
 		rem := w.calleeIs("Node.removeSubscription")
-		rems := CallsIn(commitFn, false, rem)
-		c.Anchor("C05.R2", "two rollback exits with removeSubscription in commitSubscription", len(rems) >= 2)
+		// the rollback may live in commitSubscription itself or in a helper it calls (deep view)
+		dv := w.Deep(commitFn, 2)
+		rems := dv.Calls(rem)
+		exits := map[ssa.Instruction]bool{}
+		for _, r := range rems {
+			for _, rr := range dv.Reps(r) {
+				exits[rr] = true
+			}
+		}
+		c.Anchor("C05.R2", "two rollback exits with removeSubscription in commitSubscription", len(exits) >= 2)
 		for _, r := range rems {
 			okStop := false
-			for _, s := range CallsIn(commitFn, false, stopB) {
-				if Precedes(s, r) && s.Block() == r.Block() {
+			for _, s := range dv.Calls(stopB) {
+				if dv.PrecedesDeep(s, r) {
 					okStop = true
 				}
 			}
 			c.Check("C05.R2", r, "StopBuffering ≺ removeSubscription on the rollback exit", okStop, "removing the hub entry while the recovery buffer is locked inverts the broadcast lock order (deadlock) — and skipping the release leaks the buffer")
 			// gen argument is ctx.subGen (C04.R3 covers origin); presence removal follows under kind==reservationChannels
 			okPres := false
-			for _, p := range CallsIn(commitFn, false, w.calleeIs("Client.removeSubscribePresence")) {
-				if Reaches(r, p) {
+			for _, p := range dv.Calls(w.calleeIs("Client.removeSubscribePresence")) {
+				if (p.Parent() == r.Parent() && Reaches(r, p)) || dv.PrecedesDeep(r, p) {
 					okPres = true
 				}
 			}
@@ -227,8 +247,10 @@ func runC05(c *Ctx) {
 		for _, cl := range builtinCalls(commitFn, "close") {
 			okLast := false
 			for _, r := range rems {
-				if Precedes(r, cl) {
-					okLast = true
+				for _, rr := range dv.Reps(r) {
+					if Precedes(rr, cl) {
+						okLast = true
+					}
 				}
 			}
 			c.Check("C05.R2", cl, "waiters are woken only after the rollback removed the hub entry", okLast, "a woken unsubscribe (typically close()) would observe a half-rolled-back attempt and report the client fully disconnected while its hub entry is still registered")
